@@ -235,6 +235,24 @@ for k, t in R11TXT.items():
     lv, eng, tech, text, note = checks[k]
     checks[k] = (lv, eng, tech, text + t, note)
 
+R12TXT = {
+ "C01": " Twelfth round: join-accepts whose channel CFList holds the ends of the 24-bit frequency code range (1, 11999999, 12000000, 15000000, 2^24-1).",
+ "C02": " Twelfth round: the many-keys history ends with 26 kinds of key pairs that agree under a cheap key fingerprint (32-bit FNV / CRC / Adler / truncated MD5, SHA-1, SHA-256 / multiplicative / XOR / sum, found by exhaustive birthday search; full 64-bit FNV-1, FNV-1a, MD5-8, SHA-256-8 found by cycle finding), each pair used a, b, a, b.",
+ "C03": " Twelfth round: the many-keys history ends with the fingerprint-colliding key pairs.",
+ "C04": " Twelfth round: the many-keys history ends with the fingerprint-colliding key pairs; CFList channels at the ends of the 24-bit code range.",
+ "C05": " Twelfth round: every MAC command, each field over its complete in-width domain (frequencies: notable and single-bit codes) at 3 base tuples, followed by a payload-less command, through the complete exchange in plain FOpts, encrypted FOpts and the encrypted port-0 payload; fingerprint-colliding keys in the many-sessions history.",
+ "C08": " Twelfth round: all-zero filler in the control-byte enumeration; every contiguous byte range of every base frame set to 00.. / ff.. (multi-byte fields at conspicuous values).",
+ "C09": " Twelfth round: the many-keys history ends with the fingerprint-colliding key pairs.",
+ "C10": " Twelfth round: payload lists of three elements with an empty one first / in the middle - the calls that only inspect leave the same elements at the same positions; PHYPayload reuse histories in which the receiver's follow-up calls (DecryptJoinAcceptPayload, DecodeFOptsToMACCommands, DecryptFRMPayload, DecodeFRMPayloadToMACCommands) run between the decodes.",
+ "C15": " Twelfth round: AddChannel with a frequency from 1.5 GHz up (the upper part of the 100 Hz code range); the CFList decoded from a join-accept is compared by value (trailing all-false masks apart), not only by its re-encoding.",
+ "C16": " Twelfth round: devices with fingerprint-colliding root keys at the end of the many-devices history.",
+ "C17": " Twelfth round: fingerprint-colliding KEKs at the end of the many-KEKs history.",
+ "C18": " Twelfth round: fingerprint-colliding keys at the end of the multicast many-keys history.",
+}
+for k, t in R12TXT.items():
+    lv, eng, tech, text, note = checks[k]
+    checks[k] = (lv, eng, tech, text + t, note)
+
 def load_extra():
     p = os.path.join(V, "bin", "manifest_table.json")
     if os.path.exists(p):
